@@ -83,13 +83,14 @@ class BasicStructure(ComplexDop):
             actual_len = encode_state.cursor_byte_position - orig_pos
 
             if actual_len < self.byte_size:
-                # Padding bytes are needed. We add an empty object at
-                # the position directly after the structure and let
-                # EncodeState add the padding as needed.
-                encode_state.cursor_byte_position = encode_state.origin_byte_position + self.byte_size
-                # Padding bytes needed. these count as "used".
-                encode_state.coded_message += b"\x00" * (self.byte_size - actual_len)
-                encode_state.used_mask += b"\xff" * (self.byte_size - actual_len)
+                # The structure ends BYTE-SIZE bytes after its
+                # beginning. If the PDU is shorter than this, padding
+                # bytes are needed. These count as "used".
+                encode_state.cursor_byte_position = orig_pos + self.byte_size
+                n_pad = encode_state.cursor_byte_position - len(encode_state.coded_message)
+                if n_pad > 0:
+                    encode_state.coded_message += b"\x00" * n_pad
+                    encode_state.used_mask += b"\xff" * n_pad
 
     @override
     def decode_from_pdu(self, decode_state: DecodeState) -> ParameterValue:
